@@ -4,16 +4,10 @@ import json, subprocess, re, sys, os
 
 here = os.path.dirname(os.path.abspath(__file__))
 props = [json.loads(l) for l in open(os.path.join(here, 'properties.jsonl'))]
-out = subprocess.run([os.path.join(here, 'bin/pcheck'), '-list'], capture_output=True, text=True).stdout
+out = subprocess.run([os.path.join(here, 'bin/pcheck'), '-list-json'], capture_output=True, text=True).stdout
 impl = {}
-cur = None
-for line in out.splitlines():
-    m = re.match(r'^(C\d+)\s+(.*)$', line)
-    if m:
-        cur = m.group(1)
-        impl[cur] = {'technique': m.group(2), 'rules': []}
-    elif cur and line.strip():
-        impl[cur]['rules'].append(line.split()[0])
+for e in json.loads(out):
+    impl[e['ID']] = {'technique': e['Technique'], 'rules': [r['ID'] for r in e['Rules']], 'explanation': e['Explanation'], 'assumptions': e.get('Assumptions') or []}
 
 # what each claimed check assures, in own words (the uncovered part is named in level_note)
 TEXT = {
@@ -37,8 +31,17 @@ checks = []
 na = []
 for p in props:
     pid = p['id']
-    if pid in impl and pid in TEXT:
-        text, note = TEXT[pid]
+    if pid in impl:
+        if pid in TEXT:
+            text, note = TEXT[pid]
+        else:
+            # the analyser's own explanation: "Decides ... Not decided: ..."
+            ex = impl[pid]['explanation']
+            i = ex.find('Not decided:')
+            text, note = (ex[:i].strip(), ex[i:].strip()) if i >= 0 else (ex, "Decides code shape only, not run-time behaviour.")
+            text = "Structural necessary conditions only (no behaviour is executed). " + text
+        if impl[pid]['assumptions']:
+            note += " Assumptions: " + "; ".join(impl[pid]['assumptions']) + "."
         checks.append({
             "property_id": pid,
             "quick_cmd": f"./run.sh {pid} quick",
@@ -51,7 +54,7 @@ for p in props:
             "technique": "static analysis: " + impl[pid]['technique'],
         })
     else:
-        na.append({"property_id": pid, "reason": "check under construction (rules designed in DESIGN.md section 4, not yet implemented in the analyser); not claimed yet"})
+        na.append({"property_id": pid, "reason": "no rule set implemented in the analyser for this property"})
 
 m = {
  "version": 1,
